@@ -7,9 +7,10 @@
    Accept-Encoding [ae]; [dexts]/[prio] are the tables of the Go source (default extensions,
    sibling priority) — every theorem holds for ALL tables unless it names the regenerated lists
    (Gen_C18.v), with which the check instantiates them.  The compressor is any pair [gz]/[gunzip]
-   with gunzip (gz ws) = Some (concat ws) (a premise, not an axiom).  [wb s]: the handler sets
-   headers, then starts the response with a WriteHeader, a Write or a Flush, then only writes
-   and flushes (any number, any chunking, any payload). *)
+   with gunzip (gz ws) = Some (concat ws) (a premise, not an axiom).  A handler script [s] is
+   ANY sequence of header operations, WriteHeader calls, Writes and Flushes (any number, order,
+   chunking, payload: Flush before the header, repeated WriteHeader, header changes after the
+   response has started are all covered). *)
 Require Import V.Lib V.GoPath V.Gen_C18 V.C18_Model V.C18_Proofs.
 Open Scope N_scope.
 Local Open Scope string_scope.
@@ -17,23 +18,31 @@ Local Open Scope string_scope.
 (* ---- 1. the decoded body equals the identity body; Content-Encoding names what was applied ---- *)
 
 (* For EVERY config list, request, Accept-Encoding, status, header set (ANY Content-Encoding the
-   handler may have set, in any spelling) and write/flush pattern of a well-behaved handler:
+   handler may have set, in any spelling) and EVERY sequence of handler operations:
    same status, and either the representation is untouched or exactly one gzip layer was added
    to an unencoded body, is named by Content-Encoding, and gunzips to the identity body. *)
-Theorem C18_gzip_transparent_partial :
+Theorem C18_gzip_transparent :
   forall (gz : list bytes -> bytes) (gunzip : bytes -> option bytes),
   (forall ws, gunzip (gz ws) = Some (concat ws)) ->
   forall dexts cs cfgs path ae head s,
-  wb s = true ->
   transparent gz gunzip head (gzip_serve dexts cs cfgs path ae s) (run_plain s).
 Proof. intros gz gunzip Hrt dexts. exact (gzip_transparent dexts gz gunzip Hrt). Qed.
-Print Assumptions C18_gzip_transparent_partial.
+Print Assumptions C18_gzip_transparent.
 
-Example C18_gzip_transparent_nonvacuous :
-  let s := [OSet K_CT (bs "text/plain"); OSet K_CL (bs "3"); OWrite [1]; OFlush; OWrite [2; 3]] in
-  wb s = true /\
-  r_segs (gzip_serve [[]] false [bare] (bs "/x") (bs "gzip") s) = [SG [[1]; [2; 3]]] /\
-  r_cl (gzip_serve [[]] false [bare] (bs "/x") (bs "gzip") s) = [].
+(* the handler shapes that used to break it *)
+Example C18_gzip_transparent_hard_scripts :
+  let run := gzip_serve [[]] false [bare] (bs "/x") (bs "gzip") in
+  (* chunked writes with a flush in between *)
+  r_segs (run [OSet K_CT (bs "text/plain"); OSet K_CL (bs "3"); OWrite [1]; OFlush; OWrite [2; 3]]) = [SG [[1]; [2; 3]]] /\
+  r_cl (run [OSet K_CT (bs "text/plain"); OSet K_CL (bs "3"); OWrite [1]; OFlush; OWrite [2; 3]]) = [] /\
+  (* Flush before the header: the flushed headers name the coding of the body *)
+  (let out := run [OSet K_CL (bs "3"); OFlush; OWrite [1; 2; 3]] in
+   r_ce out = [GZIP] /\ r_cl out = [] /\ r_segs out = [SG [[1; 2; 3]]]) /\
+  (* repeated WriteHeader, also after a Flush and between writes: still one gzip stream *)
+  (let out := run [OWriteHeader 200; OWriteHeader 200; OWrite [1; 2; 3]] in
+   r_ce out = [GZIP] /\ r_segs out = [SG [[1; 2; 3]]]) /\
+  (let out := run [OFlush; OWriteHeader 404; OWrite [1]; OWriteHeader 200; OSet K_CE (bs "br"); OWrite [2]] in
+   r_status out = 200%Z /\ r_ce out = [GZIP] /\ r_segs out = [SG [[1]; [2]]]).
 Proof. vm_compute. repeat split; reflexivity. Qed.
 
 (* the same in the client's terms: what a client that honours Content-Encoding decodes is the
@@ -42,42 +51,31 @@ Theorem C18_client_decodes_identity_body :
   forall (gz : list bytes -> bytes) (gunzip : bytes -> option bytes),
   (forall ws, gunzip (gz ws) = Some (concat ws)) ->
   forall dexts cs cfgs path ae head s,
-  wb s = true -> no_coding (r_ce (run_plain s)) = true ->
+  no_coding (r_ce (run_plain s)) = true ->
   client_body gz gunzip head (gzip_serve dexts cs cfgs path ae s) = Some (wire gz head (run_plain s)).
 Proof. intros gz gunzip Hrt dexts. exact (client_view dexts gz gunzip Hrt). Qed.
 Print Assumptions C18_client_decodes_identity_body.
 
-(* a Flush before the header is written is one of the well-behaved ways to start a response: the
-   gzip layer writes its header first, so the flushed headers name the coding of the body *)
-Example C18_flush_before_header_covered :
-  let s := [OSet K_CL (bs "3"); OFlush; OWrite [1; 2; 3]] in
-  let out := gzip_serve [[]; bs ".txt"] false [bare] (bs "/x") (bs "gzip") s in
-  wb s = true /\ r_ce out = [GZIP] /\ r_cl out = [] /\ r_segs out = [SG [[1; 2; 3]]].
-Proof. vm_compute. repeat split; reflexivity. Qed.
-
-(* The statement without the restriction to well-behaved handlers is false of the code: *)
-(* a second WriteHeader re-runs the response filters, which now see "Content-Encoding: gzip"
-   and switch compression off: plain bytes (plus an empty gzip stream) under a gzip label *)
-Theorem C18_repeated_writeheader_refuted :
-  exists cfgs path ae s,
-  let out := gzip_serve [[]; bs ".txt"] false cfgs path ae s in
-  r_ce out = [GZIP] /\ r_segs out = [SP [1; 2; 3]; SG []].
-Proof.
-  exists [bare], (bs "/x"), (bs "gzip"), [OWriteHeader 200; OWriteHeader 200; OWrite [1; 2; 3]].
-  exact repeated_writeheader_witness.
-Qed.
-Print Assumptions C18_repeated_writeheader_refuted.
+(* the body is never a mixture: all of it plain exactly as in the identity run, or one gzip stream
+   holding exactly the identity run's writes *)
+Theorem C18_one_representation :
+  forall dexts cs cfgs path ae s,
+  let out := gzip_serve dexts cs cfgs path ae s in
+  (applied out = [] /\ all_plain (r_segs out) = all_plain (r_segs (run_plain s)) /\
+   exists b, all_plain (r_segs out) = Some b) \/
+  (applied out = [GZIP] /\ exists ws, r_segs out = [SG ws] /\ all_plain (r_segs (run_plain s)) = Some (concat ws)).
+Proof. exact one_representation. Qed.
+Print Assumptions C18_one_representation.
 
 (* Content-Encoding names exactly the codings applied: untouched when the layer applied none,
    otherwise the inner response named no coding and the header names gzip alone *)
-Theorem C18_content_encoding_exact_partial :
+Theorem C18_content_encoding_exact :
   forall dexts cs cfgs path ae s,
-  wb s = true ->
   let out := gzip_serve dexts cs cfgs path ae s in
   (applied out = [] -> r_ce out = r_ce (run_plain s)) /\
   codings (r_ce out) = codings (r_ce (run_plain s)) ++ applied out.
 Proof. exact ce_exact. Qed.
-Print Assumptions C18_content_encoding_exact_partial.
+Print Assumptions C18_content_encoding_exact.
 
 (* ---- 2. already-encoded responses are not encoded again ---- *)
 
@@ -86,18 +84,18 @@ Print Assumptions C18_content_encoding_exact_partial.
    response is not touched at all (headers included) *)
 Theorem C18_not_double_encoded :
   forall dexts cs cfgs path ae s,
-  wb s = true -> no_coding (r_ce (run_plain s)) = false ->
+  no_coding (r_ce (run_plain s)) = false ->
   gzip_serve dexts cs cfgs path ae s = run_plain s.
 Proof. exact not_double_encoded. Qed.
 Print Assumptions C18_not_double_encoded.
 
 Example C18_not_double_encoded_nonvacuous :
   forallb (fun ce => let s := [OSet K_CE ce; OWrite [1; 2; 3]] in
-                     wb s && negb (no_coding (r_ce (run_plain s))))
+                     negb (no_coding (r_ce (run_plain s))))
           [bs "zstd"; bs "x-gzip"; bs "GZIP"; bs "br, gzip"; bs "gzip"; bs "Identity"] = true /\
   (let s := [OAdd K_CE (bs "identity"); OAdd K_CE (bs "br"); OWrite [1]] in
-   wb s = true /\ no_coding (r_ce (run_plain s)) = false).
-Proof. vm_compute. repeat split; reflexivity. Qed.
+   no_coding (r_ce (run_plain s)) = false).
+Proof. vm_compute. split; reflexivity. Qed.
 
 (* precompressed siblings: the file server picks the first coding of its priority list that the
    client listed verbatim and whose sibling exists ... *)
@@ -150,14 +148,14 @@ Print Assumptions C18_static_plain_file_transparent.
 (* ---- 3. Content-Length is absent or correct ---- *)
 Theorem C18_content_length_absent_or_correct :
   forall dexts (gz : list bytes -> bytes) cs cfgs path ae head s,
-  wb s = true -> cl_correct gz head (run_plain s) ->
+  cl_correct gz head (run_plain s) ->
   cl_correct gz head (gzip_serve dexts cs cfgs path ae s).
 Proof. exact content_length_ok. Qed.
 Print Assumptions C18_content_length_absent_or_correct.
 
 Example C18_content_length_nonvacuous :
   let s := [OSet K_CL (bs "3"); OWrite [1; 2; 3]] in
-  wb s = true /\ r_cl (run_plain s) = [bs "3"] /\ parse_int (bs "3") = Some 3%Z.
+  r_cl (run_plain s) = [bs "3"] /\ parse_int (bs "3") = Some 3%Z.
 Proof. vm_compute. repeat split; reflexivity. Qed.
 
 (* static files (GET): the header, if still there, is FormatInt of the number of bytes sent —
@@ -185,7 +183,7 @@ Print Assumptions C18_identity_when_not_offered_partial.
 (* false for the RFC 7231 reading of Accept-Encoding ([offers_gzip]): "gzip;q=0" refuses gzip *)
 Theorem C18_identity_when_not_offered_refuted :
   exists cfgs path ae s,
-  offers_gzip ae = false /\ wb s = true /\
+  offers_gzip ae = false /\
   applied (gzip_serve [[]; bs ".txt"] false cfgs path ae s) = [GZIP].
 Proof. exists [bare], (bs "/x"), (bs "gzip;q=0"), [OWrite [1; 2; 3]]. exact q0_witness. Qed.
 Print Assumptions C18_identity_when_not_offered_refuted.
@@ -200,7 +198,7 @@ Print Assumptions C18_excluded_request_identity.
 
 Theorem C18_min_length_respected :
   forall dexts cs cfgs path ae s c,
-  wb s = true -> find (req_ok dexts cs path) cfgs = Some c -> c_min c <> 0%Z ->
+  find (req_ok dexts cs path) cfgs = Some c -> c_min c <> 0%Z ->
   (r_cl (run_plain s) = [] \/
    exists v r, r_cl (run_plain s) = v :: r /\ forall n, parse_int v = Some n -> (n < c_min c)%Z) ->
   gzip_serve dexts cs cfgs path ae s = run_plain s.
@@ -209,7 +207,6 @@ Print Assumptions C18_min_length_respected.
 
 Theorem C18_compressed_response_headers :
   forall dexts cs cfgs path ae s,
-  wb s = true ->
   let out := gzip_serve dexts cs cfgs path ae s in
   applied out = [GZIP] ->
   r_ce out = [GZIP] /\ r_cl out = [] /\ In V_AE (hvals (r_hdr out) K_VARY) /\
@@ -219,7 +216,7 @@ Print Assumptions C18_compressed_response_headers.
 
 Theorem C18_compresses_when_eligible :
   forall dexts cs cfgs path ae s c,
-  wb s = true -> forallb is_hdr s = false ->
+  forallb is_hdr s = false ->
   contains ae GZIP = true -> find (req_ok dexts cs path) cfgs = Some c ->
   resp_ok c (r_hdr (run_plain s)) = true ->
   applied (gzip_serve dexts cs cfgs path ae s) = [GZIP].
